@@ -439,6 +439,13 @@ def check_C16():
     vh = build_harness()
     obs = os.path.join(scratch(), "ft_obs.ndjson")
     rc, rep = harness_run(vh, ["fault-enum", "@REPORT", obs, "tier=" + tier()], timeout=3000)
+    # blockstore.ReadWrite on a real file: kernel short writes through RLIMIT_FSIZE, one child process per fault point
+    rcb, repb = harness_run(vh, ["fault-bs-enum", "@REPORT", obs], timeout=3000)
+    rep["evaluations"] += repb["evaluations"]
+    rep["distinct_nontrivial"] += repb["distinct_nontrivial"]
+    rep["samples"] = (rep["samples"] or []) + (repb["samples"] or [])
+    rep["counters"]["blockstore"] = repb["counters"]
+    rep["inconclusive"] = (rep.get("inconclusive") or []) + (repb.get("inconclusive") or [])
     val, nobs, rejected = validate_obs("FaultObs", obs)
     viols = []
     for o in rejected:
@@ -456,12 +463,12 @@ def check_C16():
             o["sid"], o["w"], o["k"], o["call"], o["cont"], sym, o["msg"][:300]), "replay": {"family": "fault", "obs": o}})
     cov = {"evaluations": rep["evaluations"], "distinct_nontrivial": rep["distinct_nontrivial"], "states": nobs, "transitions": nobs,
            "traces_validated_against_impl": nobs,
-           "rule": "storage.NewReadableWritable over a fault-injecting ReaderAtWriterAt (CARv2, CARv2 padded, CARv1) and storage.NewWritable over a failing plain stream: a transient fault at EVERY write "
+           "rule": "blockstore.ReadWrite on a real file with a transient kernel short write (RLIMIT_FSIZE, SIGXFSZ ignored, child process per point) at every file offset 0..699 of 4 sessions x 3 continuations; storage.NewReadableWritable over a fault-injecting ReaderAtWriterAt (CARv2, CARv2 padded, CARv1) and storage.NewWritable over a failing plain stream: a transient fault at EVERY write "
                    "of the session (constructor, every section write, every index/header write of Finalize) x EVERY number of persisted bytes 0..len-1 x continuation {retry, next put, finalize at once}; "
                    "each observation validated by TLC against FaultObs!FaultSafe", "samples": rep["samples"] or [{}], "counters": rep["counters"], "tlc_validate_cmd": val["cmd"],
            "exhaustive": True}
     finish("C16", "fault_enumeration", cov, viols, inconclusive=rep.get("inconclusive") or None,
-           assumptions=["faults are injected at the io.WriterAt / io.Writer boundary; blockstore.ReadWrite shares Put's write path (LdWrite through OffsetWriteSeeker) and is covered through it"])
+           assumptions=["storage faults are injected at the io.WriterAt / io.Writer boundary", "blockstore faults come from RLIMIT_FSIZE: only writes that grow the file can fail, so the CARv2 header writes of Finalize are not faulted for blockstore.ReadWrite"])
 
 
 def check_C08():
